@@ -604,6 +604,71 @@ theorem C05_slice_bridge_concat (h : Heap) (a : Nat) (r : Ref) (hlr : h.isList r
   have hl : σ.abs.length = σ.cells.length := by simp [Slices.SHeap.abs]
   simp [Slices.astep, hc, hd, ← hl, Heap.items]
 
+private theorem abs_lt' {α} {ls : List (List α)} {c : Nat} {xs : List α} (hc : ls[c]? = some xs) : c < ls.length := by
+  rcases Nat.lt_or_ge c ls.length with h2 | h2
+  · exact h2
+  · rw [List.getElem?_eq_none h2] at hc; cases hc
+
+private theorem step_abs' {α} (cfg : Slices.Cfg α) (sorted : List α → List α) (σ : Slices.SHeap α) (hw : σ.WF)
+    (op : Slices.Op α) : (Slices.step cfg sorted σ op).1.abs = (Slices.astep sorted σ.abs op).1 := by
+  rw [← Slices.step_refines cfg sorted σ hw op]
+
+private theorem items_append_new (h : Heap) (ys : List Val) (e : Nat) : (h ++ [Cell.list ys e]).items h.length = ys := by
+  simp [Heap.items]
+
+/-- `SubList(s, e)` with a positive end inside the list: the new list of the heap model holds what the new list of the
+array-level model holds -/
+theorem C05_slice_bridge_subList (h : Heap) (a : Nat) (s e : Int)
+    (h0 : 0 ≤ s) (hse : s ≤ e) (hpos : 0 < e) (hen : e ≤ (h.items a).length)
+    (cfg : Slices.Cfg Val) (sorted : List Val → List Val) (σ : Slices.SHeap Val) (hw : σ.WF) (c : Nat)
+    (hc : σ.abs[c]? = some (h.items a)) :
+    (Slices.step cfg sorted σ (.subList c s.toNat e.toNat)).1.abs[σ.cells.length]?
+      = some ((L.subList h a s e).1.items h.length) := by
+  have he : ¬ (e > (h.items a).length ∨ e < -((h.items a).length : Int)) := by omega
+  have he' : e = if e ≤ 0 then ((h.items a).length : Int) + e else e := by
+    rw [if_neg (by omega)]
+  rw [step_abs' cfg sorted σ hw, C05_subList_spec h a s e he e he' (by omega) (by omega)]
+  have hl : σ.abs.length = σ.cells.length := by simp [Slices.SHeap.abs]
+  have hcond : s.toNat ≤ e.toNat ∧ e.toNat ≤ (h.items a).length := by omega
+  have hsub : (e - s).toNat = e.toNat - s.toNat := by omega
+  rw [items_append_new, hsub]
+  simp only [Slices.astep, hc, hcond, and_self, if_true, ← hl, List.getElem?_concat_length, List.drop_take]
+
+/-- `NewList(values...)` of scalars -/
+theorem C05_slice_bridge_new (h : Heap) (gs : List GoVal) (hs : ∀ g ∈ gs, g.isScalar = true)
+    (cfg : Slices.Cfg Val) (sorted : List Val → List Val) (σ : Slices.SHeap Val) (hw : σ.WF) :
+    (Slices.step cfg sorted σ (.newList (gs.map scalarVal))).1.abs[σ.cells.length]?
+      = some ((L.new h gs).1.items h.length) := by
+  rw [step_abs' cfg sorted σ hw, C05_new_spec h gs hs]
+  have hl : σ.abs.length = σ.cells.length := by simp [Slices.SHeap.abs]
+  rw [items_append_new]
+  simp only [Slices.astep, ← hl, List.getElem?_concat_length]
+
+/-- `NewListOf(value, count)` of a scalar -/
+theorem C05_slice_bridge_newOf (h : Heap) (g : GoVal) (n : Int) (hs : g.isScalar = true) (hn : 0 ≤ n)
+    (cfg : Slices.Cfg Val) (sorted : List Val → List Val) (σ : Slices.SHeap Val) (hw : σ.WF) :
+    (Slices.step cfg sorted σ (.newListOf (scalarVal g) n.toNat)).1.abs[σ.cells.length]?
+      = some ((L.newOf h g n).1.items h.length) := by
+  rw [step_abs' cfg sorted σ hw, C05_newOf_spec h g n hs hn]
+  have hl : σ.abs.length = σ.cells.length := by simp [Slices.SHeap.abs]
+  rw [items_append_new]
+  simp only [Slices.astep, ← hl, List.getElem?_concat_length]
+
+/-- `Sort()` on a list of ints: with Go's `sort.Ints` read as the model reads it, the receiver of the heap model holds what the
+array-level receiver holds (whose array is the one `NewListFrom` allocated for the sorted values) -/
+theorem C05_slice_bridge_sort_ints (h : Heap) (a : Nat) (hl : h.isList a = true) (i0 : Int) (rest : List Val)
+    (hx : h.items a = .int i0 :: rest)
+    (cfg : Slices.Cfg Val) (σ : Slices.SHeap Val) (hw : σ.WF) (c : Nat)
+    (hc : σ.abs[c]? = some (h.items a)) :
+    (Slices.step cfg (fun xs => ((xs.filterMap L.asInt).mergeSort (fun x y => decide (x ≤ y))).map .int) σ (.sort c)).1.abs[c]?
+      = some ((L.sort h a).1.items a) := by
+  rw [step_abs' cfg _ σ hw]
+  have hs : L.sort h a = (h.setItems a ((((h.items a).filterMap L.asInt).mergeSort (fun x y => decide (x ≤ y))).map .int), .ok (h.egoRef a)) := by
+    simp only [L.sort, hx]
+  rw [hs, (C05_setItems_view h a _ hl).1]
+  have hne : ¬ (h.items a).length = 0 := by rw [hx]; simp
+  simp only [Slices.astep, hc, hne, if_false, List.getElem?_set_self (abs_lt' hc)]
+
 #print axioms C05_parseVal_scalar
 #print axioms C05_setItems_view
 #print axioms C05_insert_spec
@@ -658,5 +723,9 @@ theorem C05_slice_bridge_concat (h : Heap) (a : Nat) (r : Ref) (hlr : h.isList r
 #print axioms C05_slice_bridge_reverse
 #print axioms C05_slice_bridge_delete
 #print axioms C05_slice_bridge_concat
+#print axioms C05_slice_bridge_subList
+#print axioms C05_slice_bridge_new
+#print axioms C05_slice_bridge_newOf
+#print axioms C05_slice_bridge_sort_ints
 
 end Anytype
